@@ -82,7 +82,7 @@ def _run(ev, work, thorough, pid):
                                               ("RGsSingle2", "ProgsSingle", ["str"], True, True),
                                               ("RGsPair2" if thorough else "RGsPairQ", "ProgsPair", ["int"], False, True),
                                               ("RGsPairCols", "ProgsPair", ["int"], False, True),
-                                              ("RGsParts", "ProgsPartOnly", ["int|phalf", "int|pstr", "int|pobj"], False, True)):
+                                              ("RGsParts", "ProgsPartOnly", ["int|phalf", "int|pstr", "int|pobj", "int|pnumstr", "int|pnumobj"], False, True)):
         pool, cases, res = F.export(work, rgs, progs, dict(F.VARIANT_CURRENT, ZeroIsEmpty=zero, MaskedNulls=masked),
                                     progs + str(zero) + str(masked))
         ev.add_tlc("FiltersExport %s x %s: contract verdicts and mechanism predictions" % (rgs, progs), res,
